@@ -244,22 +244,50 @@ impl Pool2 {
     ) -> Vec<CosmosMsg> {
         let parts = [(idx[0], amounts[0]), (idx[1], amounts[1])];
         let mut msgs = self.allowance_msgs(pair, &parts);
+        let mode = self.funds_mode_next.get();
+        let mut a0 = self.asset(idx[0], amounts[0]);
+        let mut a1 = self.asset(idx[1], amounts[1]);
+        let mut funds = match mode {
+            1 | 3 => vec![],
+            2 => self.funds_for(&parts).into_iter().take(1).collect(),
+            _ => self.funds_for(&parts),
+        };
+        match mode {
+            // hostile 3: every native pool asset is declared as a cw20 token whose "address" is the
+            // denom, and no coins are attached
+            3 => {
+                for a in [&mut a0, &mut a1] {
+                    if let AssetInfo::NativeToken { denom } = a.info.clone() {
+                        a.info = AssetInfo::Token { contract_addr: denom };
+                    }
+                }
+            }
+            // hostile 4: the second declared asset is a foreign native coin (attached) instead of the
+            // pool's second asset
+            4 => {
+                a1.info = AssetInfo::NativeToken { denom: "ujunk".into() };
+                funds = self.funds_for(&[(idx[0], amounts[0])]);
+                if amounts[1] > 0 {
+                    funds.push(cosmwasm_std::coin(amounts[1].min(1_000_000), "ujunk"));
+                    a1.amount = cosmwasm_std::Uint128::new(amounts[1].min(1_000_000));
+                }
+                funds.sort_by(|x, y| x.denom.cmp(&y.denom));
+            }
+            // hostile 5: the first pool asset is declared twice
+            5 => {
+                a1 = self.asset(idx[0], amounts[1]);
+                funds = self.funds_for(&[(idx[0], amounts[0])]);
+            }
+            _ => {}
+        }
         msgs.push(wasm_exec(
             pair,
             &pair::ExecuteMsg::ProvideLiquidity {
-                assets: if self.rev_next.get() {
-                    [self.asset(idx[1], amounts[1]), self.asset(idx[0], amounts[0])]
-                } else {
-                    [self.asset(idx[0], amounts[0]), self.asset(idx[1], amounts[1])]
-                },
+                assets: if self.rev_next.get() { [a1, a0] } else { [a0, a1] },
                 slippage_tolerance: slippage.map(|s| Decimal::from_str(s).unwrap()),
                 receiver: receiver.map(|s| s.to_string()),
             },
-            match self.funds_mode_next.get() {
-                1 => vec![],
-                2 => self.funds_for(&parts).into_iter().take(1).collect(),
-                _ => self.funds_for(&parts),
-            },
+            funds,
         ));
         msgs
     }
